@@ -71,7 +71,7 @@ Qed.
 (* witnesses *)
 
 Definition g_plain (wrap : bool) (tab : list (Z * (Z * Z * str))) : cfg :=
-  mkcfg wrap false 0 0 0 0 false [] [] false 0 false [] tab.
+  mkcfg wrap false false false 0 0 0 0 false [] [] false 0 false [] tab.
 
 (* F1 (repaired in /repo by commit f4b07a8): 'abcde' in a 5x1 wrapping window,
    cursor at the end - not visible on the pinned snapshot, visible now *)
